@@ -634,6 +634,21 @@ def solve_static(ob, workdir):
     r.n_props = 1
     r.canary = True
     bad = [(c, e) for c, rc, e in outs if rc != 0]
+    if ob.dfcc and ob.dfcc.get('expect') == 'reject':
+        # negative compile probe: the property says this program is REJECTED (a guard of the library fires).  Discharged when both compilers reject it and the
+        # diagnostic is the library's own guard (regex); an accepted program is a violation; a rejection for any other reason is infrastructure (exit 2)
+        r.backend = 'compiler must reject (clang++-14, g++)'
+        rx = re.compile(ob.dfcc['match'])
+        accepted = [c for c, rc, e in outs if rc == 0]
+        if accepted:
+            r.status = 'failed'
+            r.failed_props = ['STATIC:program accepted although the property says it is rejected (%s) [%s]' % (', '.join(accepted), ob.id)]
+            r.log = 'accepted by: ' + ', '.join(accepted); r.detail = r.log
+        elif all(rx.search(e) for c, rc, e in outs):
+            r.status = 'proved'
+        else:
+            r.status = 'error'; r.detail = 'rejected, but not by the expected guard /%s/: %s' % (ob.dfcc['match'], '\n'.join(e[-400:] for c, rc, e in outs))
+        return r
     if not bad:
         r.status = 'proved'
     else:
